@@ -19,6 +19,7 @@
 import PdsVerif.Model.ReadSignal
 import PdsVerif.Lemmas.ReadSignal
 import PdsVerif.Generated.ReadSig
+import PdsVerif.Lemmas.WavFrames
 
 namespace PdsVerif.C11
 
@@ -660,5 +661,63 @@ theorem wds_undecodable_key {α : Type} (e : Env) (P : Prims α) (key : Str)
 
 example : infer exEnv (str% "utt1.txt") = .error .ioError ∧ infer exEnv (str% "npy") = .error .ioError
     ∧ infer exEnv (str% "ark:x") = .ok (str% "table") ∧ infer exEnv (str% "x|") = .ok (str% "kaldi") := by decide
+
+
+/-! ## one codec that IS the repository's own code: the PCM frames of a wav file
+
+`_wave_read_signal` lets the standard library's `wave` parse the container and then decodes the frames itself
+(`np.frombuffer(frames, '<i{width}')`, divisibility check, C-order reshape).  `Model/WavFrames.lean` models that
+part byte for byte; the theorems below are the wav clause of the property for it, for every sample width NumPy has an integer type for (1, 2, 4, 8 bytes; the property names 16- and 32-bit PCM), every
+channel count and every length.  (Tied to the code by correspondence on real files written with `wave`: `wavframes` lines.) -/
+
+section WavFrames
+open PdsVerif.Model.Sphere PdsVerif.Model.WavFrames
+
+/-- **wav round trip, the repository's part.**  For every sample width of 1, 2, 4 or 8 bytes, every channel count
+`chans ≥ 1`, every number of time steps and every sample that fits `width` bytes: reading the frames that hold a
+C-ordered (time, channels) array returns exactly those samples with shape `(time, channels)` — `(time,)` for mono. -/
+theorem waveRead_waveFrames (width chans : Nat) (hnp : width = 1 ∨ width = 2 ∨ width = 4 ∨ width = 8) (hc : 0 < chans)
+    (rows : List (List Int))
+    (hrows : ∀ r ∈ rows, r.length = chans)
+    (hrange : ∀ r ∈ rows, ∀ x ∈ r, -((2 : Int) ^ (8 * width - 1)) ≤ x ∧ x < (2 : Int) ^ (8 * width - 1)) :
+    waveRead width chans (waveFrames width rows)
+      = .ok (if chans > 1 then [rows.length, chans] else [rows.length], rows.flatten) := by
+  have hw : 0 < width := by omega
+  have hlen : (waveFrames width rows).length = rows.flatten.length * width :=
+    length_flatMap_const (encLE width) width (length_encLE width) rows.flatten
+  have hfl := length_flatten_const rows chans hrows
+  unfold waveRead
+  rw [if_neg (not_not.mpr hnp), hlen, Nat.mul_mod_left, Nat.mul_div_cancel _ hw]
+  rw [if_neg (by omega)]
+  simp only
+  have hdata : unpack width (decItem width true false) rows.flatten.length (waveFrames width rows) = rows.flatten := by
+    have := unpack_flatMap width (decItem width true false) (encLE width) (length_encLE width) rows.flatten []
+      (by
+        intro x hx
+        obtain ⟨r, hr, hxr⟩ := List.mem_flatten.mp hx
+        exact decItem_encLE width hw x (hrange r hr x hxr))
+    simpa [waveFrames] using this
+  rw [hdata, hfl, Nat.mul_mod_left, if_neg (by omega), Nat.mul_div_cancel _ hc]
+  by_cases h1 : chans > 1
+  · simp [h1]
+  · have : chans = 1 := by omega
+    subst this; simp
+
+/-- a stream whose sample count is not a multiple of the channel count is refused with IOError -/
+theorem waveRead_ragged (width chans : Nat) (hnp : width = 1 ∨ width = 2 ∨ width = 4 ∨ width = 8) (frames : Bytes)
+    (hm : frames.length % width = 0) (hr : frames.length / width % chans ≠ 0) :
+    waveRead width chans frames = .error .io := by
+  unfold waveRead
+  rw [if_neg (not_not.mpr hnp), if_neg (by omega)]
+  simp [hr]
+
+/-- 24-bit PCM (and any width NumPy has no integer dtype for) is refused, whatever the frames -/
+theorem waveRead_width3 (chans : Nat) (frames : Bytes) : waveRead 3 chans frames = .error .type := by
+  simp [waveRead]
+
+example : waveRead 2 2 (waveFrames 2 [[1, -2], [300, -32768]]) = .ok ([2, 2], [1, -2, 300, -32768]) := by decide
+example : waveRead 4 1 (waveFrames 4 [[-1], [70000]]) = .ok ([2], [-1, 70000]) := by decide
+
+end WavFrames
 
 end PdsVerif.C11
